@@ -233,21 +233,30 @@ class _MetricCache(defaultdict):
     if self.strategy:
       with self.lock:
         metric = self.strategy.choose_item()
-    else:
-      # Avoid .keys() as it dumps the whole list
-      metric = next(iter(self))
-    if metric is None:
-      return (None, [])
+        if metric is None:
+          return (None, [])
+        # pop under the same lock, a store in between would invalidate the
+        # strategy's choice (and the buckets of the bucketmax strategy)
+        datapoint_index = self._pop(metric)
+      self._check_available_space()
+      return (metric, sorted(datapoint_index.items(), key=by_timestamp))
+    # Avoid .keys() as it dumps the whole list
+    metric = next(iter(self))
     return (metric, self.pop(metric))
 
   def get_datapoints(self, metric):
     """Return a list of currently cached datapoints sorted by timestamp"""
     return sorted(self.get(metric, {}).items(), key=by_timestamp)
 
+  def _pop(self, metric):
+    # the caller holds the lock
+    datapoint_index = defaultdict.pop(self, metric)
+    self.size -= len(datapoint_index)
+    return datapoint_index
+
   def pop(self, metric):
     with self.lock:
-      datapoint_index = defaultdict.pop(self, metric)
-      self.size -= len(datapoint_index)
+      datapoint_index = self._pop(metric)
     self._check_available_space()
 
     return sorted(datapoint_index.items(), key=by_timestamp)
